@@ -45,6 +45,7 @@ def run(ck):
     for v in ["v", "T", "t", "b", "c", "d", "o", "O", "q", "x", "X", "U", "e", "E", "f", "F", "g", "G", "s", "z"]:
         batches.append({"id": len(batches), "sweep": v, "seed": ck.seed})
     res = vlib.run_cases(ck, "format", batches, nproc=14, timeout=3000)
+    res = vlib.retry_hangs(ck, "format", batches, res, timeout=3000)
     stats = {}
     keycount, seen = {}, set()
     for b in batches:
@@ -70,6 +71,7 @@ def run(ck):
     # arbitrary formats and arguments
     fz = [{"id": i, "seed": ck.seed * 7919 + i, "n": 20000 if quick else 400000, "max_str": [0, 64, 1000, 3][i % 4]} for i in range(14)]
     fres = vlib.run_cases(ck, "formatfuzz", fz, nproc=14, timeout=3000)
+    fres = vlib.retry_hangs(ck, "formatfuzz", fz, fres, timeout=3000)
     fstats = {}
     for c in fz:
         o = fres[c["id"]]
